@@ -131,7 +131,8 @@ static void h_pfor_enc(const vcase *c) {
     size_t ni = probe_indices(xs, n, &m, idx, n + 400);
     uint64_t *ga = malloc((ni + 1) * sizeof(uint64_t));
     uint64_t *want = malloc((ni + 1) * sizeof(uint64_t));
-    for (size_t i = 0; i < ni; i++) {
+    for (size_t k = 0; k < ni; k++) { /* probes in descending position order first */
+        size_t i = ni - 1 - k;
         ga[i] = varintPFORGetAt(in.p, idx[i], &m);
         want[i] = xs[idx[i]];
     }
